@@ -1088,6 +1088,10 @@ func (vc *VC) doReturn(st *State, r *ssa.Return) error {
 	}
 	vc.curPos = r.Pos()
 	vc.retOrd++
+	var resTerms []string
+	for i := 0; i < res.Len(); i++ {
+		resTerms = append(resTerms, env.vars[fmt.Sprintf("result%d", i)].T)
+	}
 	for _, c := range vc.spec.Ensures {
 		parts, err := vc.splitClause(env, c)
 		if err != nil {
@@ -1100,7 +1104,7 @@ func (vc *VC) doReturn(st *State, r *ssa.Return) error {
 			}
 			name += pt.suffix + fmt.Sprintf("@ret%d", vc.retOrd)
 			o := vc.oblige(st, name, "ensures", pt.term, pt.text, c.Props)
-			o.Hint = &ReplayHint{Params: vc.paramTerms}
+			o.Hint = &ReplayHint{Params: vc.paramTerms, Results: resTerms, Reach: st.reach}
 		}
 	}
 	return nil
